@@ -341,10 +341,10 @@ def c_lc_check(inp):
 
 @S.item("lc_check.dressed_tableaux", site=f"{_SLC}:lc_check",
         bound="connected graphs n<=4 (thorough n<=5): graph 2 from the orbit of graph 1 or another connected graph; both graph states "
-              "dressed with seeded random local Clifford gate lists (<=2n gates from I,H,P,P_dag,X,Y,Z), given as signed stabilizer / Clifford tableaux; "
+              "dressed with seeded random local Clifford gate lists (<=2n gates from I,H,P,P_dag,X,Y,Z), given as signed stabilizer / Clifford tableaux, validate True/False; "
               "quick 1200 cases, thorough 12000", clause=CL_ANSWER + "; " + CL_GATES + " (signs of tableau inputs included)")
 def c_lc_check_dressed(inp):
-    form, a, ga, b, gb = inp
+    form, validate, a, ga, b, gb = inp
     A, B = _adj(a), _adj(b)
     n = len(A)
     ga = [(g[0], int(g[1])) for g in ga]
@@ -353,7 +353,7 @@ def c_lc_check_dressed(inp):
     db, sb = L.dressed_rows(B, gb)
     v1 = L.apply_gate_list(R.graph_state(A), n, ga)
     v2 = L.apply_gate_list(R.graph_state(B), n, gb)
-    ok, gates = slc.lc_check(_tableau(form, da, sa), _tableau(form, db, sb))
+    ok, gates = slc.lc_check(_tableau(form, da, sa), _tableau(form, db, sb), validate=bool(validate))
     truth = L.same_orbit(A, B)
     if bool(ok) != truth:
         return f"false 'no' (underlying graphs are LC equivalent), answer {ok!r}" if truth else f"false 'yes', answer {ok!r}"
@@ -520,7 +520,7 @@ def _dressed_cases(nmax, count, rng):
             B = gs[int(rng.integers(len(gs)))]
         ga = [[_NAMES[int(rng.integers(7))], int(rng.integers(n))] for _ in range(int(rng.integers(0, 2 * n + 1)))]
         gb = [[_NAMES[int(rng.integers(7))], int(rng.integers(n))] for _ in range(int(rng.integers(0, 2 * n + 1)))]
-        out.append([("stabilizer", "clifford")[int(rng.integers(2))], A.tolist(), ga, B.tolist(), gb])
+        out.append([("stabilizer", "clifford")[int(rng.integers(2))], bool(rng.integers(2)), A.tolist(), ga, B.tolist(), gb])
     return out
 
 
@@ -616,7 +616,7 @@ def run(tier, seed):
             lc_inputs += [[form, validate, a, b] for a, b in p5]
     S.map("lc_check.pairs", lc_inputs, nontrivial=nt_pair)
     S.map("lc_check.dressed_tableaux", _dressed_cases(5 if thorough else 4, 12000 if thorough else 1200, rng),
-          nontrivial=lambda i: L.same_orbit(_adj(i[1]), _adj(i[3])) and (len(i[2]) + len(i[4]) > 0))
+          nontrivial=lambda i: L.same_orbit(_adj(i[2]), _adj(i[4])) and (len(i[3]) + len(i[5]) > 0))
     S.map("converter_gate_list.gates", [[a, b] for a, b in pairs4], nontrivial=nt_pair)
     S.map("state_converter_circuit.circuit", [[v, a, b] for v in (False, True) for a, b in pairs4], nontrivial=nt_pair)
 
